@@ -94,6 +94,17 @@ def run_unit(A, unit, rep, tier):
                              f"the {kind_} lock acquired by `{astmt}` in {afunc} is still held when the operation {what} "
                              f"(no release on that path): every other thread then blocks forever on this resource",
                              g.witness(w or []), g.label)
+                # (f) re-pointing the object happens under its collection lock (an operation in flight on another
+                #     thread must not see the lock id change between its acquire and its release)
+                if func is not None:
+                    for n in live(g):
+                        if n.kind == "attr_store" and n["name"] == "_filename":
+                            if all("col:root:T" in held_ids(s_) for s_ in st.get(n.id, [()])):
+                                rep.ok("C10.f", f"C10.f {g.label}: `{n.stmt}` runs under the object's collection lock")
+                            else:
+                                rep.fail("C10.f", norm_key("C10.f", n.func, n.stmt),
+                                         f"{n.func}: `{n.stmt}` changes the resource (and with it the lock id) of the object without holding its collection lock: an operation in flight on another thread releases a different lock than it acquired",
+                                         [n.where() + ": " + n.stmt], g.label)
                 # (b) counters balanced
                 cs = count_dataflow(g)
                 bad = None
@@ -158,7 +169,31 @@ def finalize(A, rep, tier):
         rep.undecided_note("C10.c", "no nested lock acquisition found")
 
 
+def check_table_writes_locked(A, rep):
+    """(e) entries are added to the lock table only under the class lock (check-then-create is atomic)."""
+    from ..interp import Builder, Ctx
+    for cls in A.concrete():
+        if not A.supports_threading(cls) or A.is_list(cls) or cls.is_subclass_of("AttrDict"):
+            continue
+        jobs = [("__init__", None, {"parent": Val("const", None)})]
+        for pname, fset in setters(A, cls).items():
+            jobs.append((pname + ".setter", fset, None))
+        for m_, func, kw in jobs:
+            b, g = A.graph(cls, m_, "root", "none", func=func, kwargs=kw)
+            st = lock_dataflow(g)
+            tables = b.lock_tables()
+            for n in live(g):
+                if n.kind == "cs_write" and n["name"] in tables and n["op"] == "setitem":
+                    if all("cls" in held_ids(s_) for s_ in st.get(n.id, [()])):
+                        rep.ok("C10.e", f"C10.e {g.label}: `{n.stmt}` adds the lock under the class lock")
+                    else:
+                        rep.fail("C10.e", norm_key("C10.e", n.func, n.stmt),
+                                 f"{n.func}: `{n.stmt}` adds an entry to the per-class lock table without the class lock: two threads opening the same resource can each install a lock, and one of them then works without mutual exclusion",
+                                 [n.where() + ": " + n.stmt], g.label)
+
+
 def check_table(A, rep):
+    check_table_writes_locked(A, rep)
     m = A.model
     from ..interp import Builder, Ctx
 
